@@ -162,26 +162,38 @@ class Harness:
                 )
                 ret = self.scrub(ret)
             elif k == "plantuml":
-                options = copy.deepcopy(plantuml.PLANTUML_RENDER_OPTIONS)
-                from edgegraph.structure import Vertex
+                # one options object per set of callbacks: the caller that
+                # repeats a call after a fault repeats it with the options it has
+                options = cbs.get("#options")
+                if options is None:
+                    options = copy.deepcopy(plantuml.PLANTUML_RENDER_OPTIONS)
+                    from edgegraph.structure import Vertex
 
-                vopts = dict(options[Vertex])
-                if e.get("user"):
-                    vopts["user_render_func"] = cbs["user_render_func"]
-                options[Vertex] = vopts
-                # the default ".+" would print every attribute dir() finds,
-                # class-level tables and bound-method addresses included:
-                # process-global state, not a function of the graph
-                vopts["show_attrs"] = ["^sim_tag$", "^colour$"]
-                if e.get("title"):
-                    vopts["title_format"] = "{sim_tag}"
+                    vopts = dict(options[Vertex])
+                    if e.get("user"):
+                        vopts["user_render_func"] = cbs["user_render_func"]
+                    options[Vertex] = vopts
+                    # the default ".+" would print every attribute dir() finds,
+                    # class-level tables and bound-method addresses included:
+                    # process-global state, not a function of the graph
+                    vopts["show_attrs"] = ["^sim_tag$", "^colour$"]
+                    if e.get("title"):
+                        vopts["title_format"] = "{sim_tag}"
+                    cbs["#options"] = options
                 ret = plantuml.render_to_plantuml_src(ex.g(e["u"]), options)
                 ret = self.scrub(ret)
                 if isinstance(ret, str):
                     ret = sorted(ret.split("\n"))
             elif k in ("pyvis", "pyvis_custom"):
                 fn = eg_pyvis.make_pyvis_net if k == "pyvis" else eg_pyvis.pyvis_render_customizable
-                net = fn(ex.g(e["u"]), cbs.get("rvfunc"), cbs.get("refunc"))
+                if k == "pyvis" and e.get("netkw"):
+                    # display settings the user keeps on the universe itself
+                    net = fn(
+                        ex.g(e["u"]), cbs.get("rvfunc"), cbs.get("refunc"),
+                        network_kwargs=ex.g(e["u"]).display,
+                    )
+                else:
+                    net = fn(ex.g(e["u"]), cbs.get("rvfunc"), cbs.get("refunc"))
                 ret = self.norm_net(net)
             elif k == "dumps":
                 data = nrpickler.dumps(ex.g(e["root"]), protocol=e.get("proto", 4))
@@ -348,6 +360,7 @@ class C13(engine.Property):
         "fault-free-call-raised",
         "link-leaves-universe",
         "self-loop-in-universe",
+        "network-kwargs-kept-on-the-universe",
     ]
 
     def make_config(self, rng):
@@ -447,6 +460,8 @@ class C13(engine.Property):
             else:
                 op["rvfunc"] = rng.random() < 0.8
                 op["refunc"] = rng.random() < 0.8
+                if kind == "pyvis" and rng.random() < 0.3:
+                    op["netkw"] = True
         op = dict(op)
         op.pop("op", None)
         op["kind"] = kind
@@ -471,6 +486,11 @@ class C13(engine.Property):
         flag = bool(op.get("cache"))
         seams.set_flag(False)
         try:
+            if entry.get("netkw") and entry.get("u") in st.ex.w.objs:
+                u = st.ex.w.objs[entry["u"]]
+                if not isinstance(vars(u).get("display"), dict):
+                    u.display = {"height": "400px"}
+                s["probe:network-kwargs-kept-on-the-universe"] += 1
             s0 = deep_snapshot(st.ex, flag)
             self._shape_probes(st, entry, s0)
             cbs = h.make_callbacks()
@@ -488,7 +508,7 @@ class C13(engine.Property):
                 s["probe:fault-free-call-raised"] += 1
             st.enumerated += 1
             st.last_triple = engine.h64(engine.jdump([s0, entry, flag]))
-            counts = {name: cb.count for name, cb in cbs.items()}
+            counts = {name: cb.count for name, cb in cbs.items() if isinstance(cb, CB)}
             s1 = deep_snapshot(st.ex, flag)
             if s1 != s0:
                 return {"R": R, "N": counts}, self._changed(
@@ -515,7 +535,8 @@ class C13(engine.Property):
                         )
                     # same callbacks, now well-behaved: the normal answer
                     for cb in cbs_k.values():
-                        cb.reset(None)
+                        if isinstance(cb, CB):
+                            cb.reset(None)
                     seams.set_flag(flag)
                     again = h.call(cbs_k)
                     seams.set_flag(False)
